@@ -25,8 +25,16 @@ fn build_config(c: &Value) -> BuildConfig {
             cfg.env(kv[0].as_str().unwrap(), kv[1].as_str().unwrap());
         }
     }
-    let bps: Vec<BuildpackReference> = jarr(c, "buildpacks").iter().map(|b| BuildpackReference::Other(b.as_str().unwrap().to_string())).collect();
+    // "@crate": the crate under test itself, "@ws:<id>": a buildpack of its workspace (both packaged into a temporary directory), anything else is handed to pack as it is
+    let bps: Vec<BuildpackReference> = jarr(c, "buildpacks").iter().map(|b| match b.as_str().unwrap() {
+        "@crate" => BuildpackReference::CurrentCrate,
+        s if s.starts_with("@ws:") => BuildpackReference::WorkspaceBuildpack(s[4..].parse().expect("buildpack id")),
+        s => BuildpackReference::Other(s.to_string()),
+    }).collect();
     cfg.buildpacks(bps);
+    if let Some(t) = c.get("target_triple").and_then(Value::as_str) {
+        cfg.target_triple(t);
+    }
     // half of the env through env(), half through envs()
     let env = jarr(c, "env");
     let (a, b) = env.split_at(env.len() / 2);
